@@ -14,11 +14,11 @@ import (
 // taskTable: the field of map type map[cid.Cid]S (S a named integer type with declared
 // constants) in stores/replicator, resolved by type.
 type taskTable struct {
-	field    *types.Var
-	stateT   *types.Named
-	states   map[int64]string
-	owner    *types.Named
-	initial  map[int64]bool // states assigned where an item is enqueued
+	field   *types.Var
+	stateT  *types.Named
+	states  map[int64]string
+	owner   *types.Named
+	initial map[int64]bool // states assigned where an item is enqueued
 }
 
 func (c *Ctx) findTaskTable() *taskTable {
